@@ -28,8 +28,8 @@ ASSUMPTIONS = [
 ]
 UNKNOWN = ["Foo", "ExpertVocals", "HardGuitarCoop", "ExpertSingleX", "SingleExpert", "Song2", "Sync Track", "events", "EasySingleBass",
            "ExpertDoubleDrums", "X", "Expert", "Single"]
-BODY_POOL = ["  0 = N 0 0", "  192 = E solo", "  0 = B 120000", "[Song]", "[ExpertSingle]", "  Resolution = 1", "garbage", "", "  ", " {", "} ",
-             "{ }", "  5 = S 2 10", "  Name = \"{\"", "  0 = E \"section }\""]
+BODY_POOL = ["  0 = N 0 0", "  192 = E solo", "  0 = B 120000", "[Song]", "[ExpertSingle]", "  Resolution = 1", "garbage", "", "  ",
+             "{ }", "  5 = S 2 10", "  Name = \"{\"", "  0 = E \"section }\"", "{", "x{", "}x"]  # a lone "{" is content of an unknown body; "}" closes it
 TMP = None
 
 
@@ -39,7 +39,7 @@ def exhaustive(tier):
 
 def required(tier):
     return ["all_40_headers_routed_alone", "all_40_together", "empty_body", "bom_by_path", "crlf", "crlf_by_path", "unknown_between_known",
-            "required_first", "required_last", "missing:Song", "missing:SyncTrack", "missing:Events", "instrument_before_Song", "align:straddle", "align:line_end"]
+            "required_first", "required_last", "missing:Song", "missing:SyncTrack", "missing:Events", "instrument_before_Song", "align:straddle", "align:line_end", "rendering_parsed_with_selection_of_all_tracks"]
 
 
 def shards(tier, seed):
@@ -113,9 +113,9 @@ def check_unknown_reports(rec, sections, out, case):
     return True
 
 
-def parse_variant(text, via_path, bom):
+def parse_variant(text, via_path, bom, want=None):
     if not via_path:
-        return harness.parse(text)
+        return harness.parse(text, want)
     global TMP
     if TMP is None:
         TMP = tempfile.mkdtemp(prefix="vmon-c06-")
@@ -126,7 +126,7 @@ def parse_variant(text, via_path, bom):
     try:
         import pathlib
 
-        c = harness.Chart.from_filepath(pathlib.Path(p))
+        c = harness.Chart.from_filepath(pathlib.Path(p)) if want is None else harness.Chart.from_filepath(pathlib.Path(p), want_tracks=want)
         return harness.Outcome(c, None, env.LOG.drain())
     except Exception as e:  # noqa
         return harness.Outcome(None, e, env.LOG.drain())
@@ -136,7 +136,13 @@ def judge_rendering(rec, sections, truth, newline, via_path, bom, baseline, ligh
     text = gen.render_sections(sections, newline)
     case = {"sections": [[n, list(b)] for n, b in sections], "truth": truth, "newline": newline, "via_path": via_path, "bom": bom}
     probes.drain()
-    out = parse_variant(text, via_path, bom)
+    want = None
+    if not light and len(text) % 4 == 1:
+        # the same rendering parsed with a selection that names every track present (plus an absent pair): same chart, and
+        # unknown sections must still be reported
+        want = harness.pairs(mcheck.all_present({"truth": truth}))
+        rec.cls("rendering_parsed_with_selection_of_all_tracks")
+    out = parse_variant(text, via_path, bom, want)
     rec.ev()
     if not out.ok:
         probes.drain()
